@@ -174,13 +174,12 @@ Section Link.
     len bs mod 16384 = 0 /\ 16384 <= len bs /\ limit <= len bs /\ limit mod 32 = 0 /\
     (limit = 0 \/ first_off hdr <= limit) /\
     Forall2 (bucket_ok bs hdr limit) buckets tbl /\ pairwise rec_compat (concat tbl) = true /\
-    32 <= hdr <= 544 /\ h < 512 /\ first_off hdr <= s /\ limit <= s /\
+    (32 <= hdr /\ hdr + 2052 <= len bs) /\ h < 512 /\ first_off hdr <= s /\ limit <= s /\
     32 <= rec_size (len name) <= 4128 /\ 16 + len name <= rec_size (len name) /\
     rec_size (len name) mod 32 = 0.
   Proof.
     pose proof (spec_read_inv _ _ _ _ _ _ Hread) as (Eh & Ek & El & H1 & H2 & H3 & H4 & H5 & Ht & Hp).
-    pose proof (spec_header_inv _ _ _ Eh) as (hh & Hm & _ & Elen & _).
-    pose proof (mapped_header_len _ _ Hm) as (_ & _ & Hb & _).
+    pose proof (spec_header_inv _ _ _ Eh) as (_ & _ & Hb & _ & Hfit & _).
     pose proof (rec_size_bounds _ Hname) as (R1 & R2 & R3).
     pose proof (hash_lt name) as Hh. fold h in Hh.
     repeat split; try assumption; try lia.
@@ -381,12 +380,11 @@ Section SetVal.
     len bs mod 16384 = 0 /\ 16384 <= len bs /\ limit <= len bs /\ limit mod 32 = 0 /\
     (limit = 0 \/ first_off hdr <= limit) /\
     Forall2 (bucket_ok bs hdr limit) buckets tbl /\ pairwise rec_compat (concat tbl) = true /\
-    32 <= hdr <= 544 /\ first_off hdr <= off /\ off + 16 + len (r_name r0) <= r_end r0 /\
+    (32 <= hdr /\ hdr + 2052 <= len bs) /\ first_off hdr <= off /\ off + 16 + len (r_name r0) <= r_end r0 /\
     r_end r0 <= limit /\ len bs' = len bs.
   Proof.
     pose proof (spec_read_inv _ _ _ _ _ _ Hread) as (Eh & Ek & El & H1 & H2 & H3 & H4 & H5 & Ht & Hp).
-    pose proof (spec_header_inv _ _ _ Eh) as (hh & Hm & _ & Elen & _).
-    pose proof (mapped_header_len _ _ Hm) as (_ & _ & Hb & _).
+    pose proof (spec_header_inv _ _ _ Eh) as (_ & _ & Hb & _ & Hfit & _).
     pose proof (wf_record_in _ _ _ _ _ Ht Hin) as [Hri _].
     pose proof (rec_in_facts _ _ _ _ Hri H3) as (F1 & F2 & F3 & F4 & _).
     pose proof (rec_size_bounds _ F3) as (R1 & R2 & R3).
